@@ -408,9 +408,7 @@ def call_builtin(I, f, args, kwargs, node):
         return call_spec(I, name[5:], args, kwargs, node)
     if name.startswith('uninterp:'):
         fn, sig = I.registry.uninterp_fn(name[9:])
-        ts = []
-        for a, s_ in zip(args, sig[:-1]):
-            ts.append(I.as_bytes(a) if s_ == 'bytes' else (as_real_term(a) if s_ == 'real' else (a.t if s_ not in ('int',) else as_int_term(a))))
+        ts = I.registry.uninterp_args(I, sig, args)
         from .objects import wrap_term
         return wrap_term(I, sig[-1], fn(*ts))
     if name.startswith('dunder:'):
